@@ -226,7 +226,7 @@ static int write_kv_pairs(const sqfs_xattr_writer_t *xwr,
 
 static int write_id_table(const sqfs_xattr_writer_t *xwr,
 			  sqfs_meta_writer_t *mw,
-			  sqfs_u64 *locations)
+			  sqfs_u64 *locations, size_t loc_count)
 {
 	sqfs_xattr_id_t id_ent;
 	kv_block_desc_t *blk;
@@ -248,7 +248,8 @@ static int write_id_table(const sqfs_xattr_writer_t *xwr,
 			return err;
 
 		sqfs_meta_writer_get_position(mw, &block, &offset);
-		if (block != locations[i - 1])
+		/* a table that ends on a block boundary has no next block */
+		if (block != locations[i - 1] && i < loc_count)
 			locations[i++] = block;
 	}
 
@@ -328,7 +329,7 @@ int sqfs_xattr_writer_flush(const sqfs_xattr_writer_t *xwr, sqfs_file_t *file,
 	if (err)
 		goto out;
 
-	err = write_id_table(xwr, mw, locations);
+	err = write_id_table(xwr, mw, locations, count);
 	if (err)
 		goto out;
 
